@@ -45,7 +45,11 @@ def pool_core(rng, n_extra):
               "[true]", "[DW_AT_name]", "[3]", '[""]', "[[], []]",
               '["a\\x00b"]', '["a\\x00c"]', '[1, "\\x00a"]', '[1, "\\x00b"]'):
         P.append((q(s), "seq"))
-    for s in ("0 0 aset", "1 5 aset", "1 6 aset", "1 5 aset 7 9 aset add", "2 5 aset", "1 5 aset 6 9 aset add", "7 9 aset 1 5 aset add"):
+    for s in ("0 0 aset", "1 5 aset", "1 6 aset", "1 5 aset 7 9 aset add", "2 5 aset", "1 5 aset 6 9 aset add", "7 9 aset 1 5 aset add",
+              # sets far apart and long ones: differences of starts / lengths at and beyond 2^63
+              "0 0x10 aset", "0x400000 0x400010 aset", "0x8000000000000000 0x8000000000000010 aset", "0xffffffff80000000 0xffffffff80000010 aset",
+              "0x7fffffffffffffff 0x8000000000000001 aset", "1 0x8000000000000002 aset", "0 0xfffffffffffffffe aset", "0 0x10 aset 0xffffffffffffff00 0xfffffffffffffff0 aset add",
+              "0 0x8000000000000000 aset", "0 0x8000000000000001 aset"):
         P.append((q(s), "aset"))
     P.append((q("{1}"), "closure"))
     # closures that captured values (their copies hold copies of those), alone and inside sequences
